@@ -20,15 +20,15 @@ ASSUMPTIONS = [
     "the resistance integral is only defined up to the quadrature rule on nodal data: bracket + refinement oracles (DESIGN C03)",
     "identities 1e-11 (double), 1e-6 (single, complex64 storage of the mean mode)",
 ]
-MIN_NONTRIVIAL = {"quick": 200, "thorough": 3000}
-TIMEOUT = {"quick": 900, "thorough": 3000}
+MIN_NONTRIVIAL = {"quick": 200, "thorough": 9600}
+TIMEOUT = {"quick": 900, "thorough": 7000}
 EX = {"double": 1e-11, "single": 2e-6}
 
 
 def cases(tier, seed):
     from vlib.gen import HALO_CLASSES
 
-    n = 160 if tier == "quick" else 2400
+    n = 160 if tier == "quick" else 9600
     out = [{"seed": seed, "idx": i, "kind": "conservation"} for i in range(n)]
     out += [{"seed": seed, "idx": i, "kind": "halo", "halo_class": [c for c in HALO_CLASSES if c != "zero"][i % 5]} for i in range(n)]
     out += [{"seed": seed, "idx": i, "kind": "refine"} for i in range(n // 8)]
